@@ -98,6 +98,9 @@ def run_fault(pr, fault, vcs, dry_first, set_version):
 
 def run(chk, driver, tier):
     rng = chk.rng
+    # the COMPOSED model of `bumpver update` for LEGACY patterns (Model/UpdateV1.lean, theorems Props/UpdateV1.lean) against the real CLI
+    import props.updfull_v1 as updfull_v1
+    updfull_v1.run(chk, driver, 250 if tier == "thorough" else 25)
     # the LEGACY engine end to end: a pattern without a match (also: one that would match only with its blanks stripped) fails the whole update
     import props.v1e2e as v1e2e
     v1e2e.run(chk, 300 if tier == "thorough" else 30, driver, faults=0.7)
